@@ -2337,8 +2337,11 @@ def check_C(env, c, img1, tree, work, res, flavour):
             P.append(("fix:xattr-order:no-fixpoint", "no fix-point is ever reached: the order of a member's xattrs changes on every tar2sqfs|sqfs2tar round trip, so "
                       "tar1 != tar2 and img2 != img3 although nothing else differs (%s flavour; %s)" % (flavour, order_issue)))
         else:
-            P.append(("fix:xattr-order:tar1-differs-from-tar2", "tar1 != tar2 only in the order of a member's xattrs (img2 == img3, i.e. the fix-point is reached one "
-                      "round trip late; %s flavour; %s)" % (flavour, order_issue)))
+            # The property asks for img2 == img3 (the second conversion reproduces the first *image* byte for byte), which holds here.
+            # tar1 and tar2 list a member's xattrs in different orders because sqfs2tar emits them in key-table order and img1's key table
+            # was filled in archive order, img2's in directory order: not semantic, not a violation; counted only.
+            res.cnt["fixpoint_images_identical"] += 1
+            res.cnt["fixpoint_tar1_tar2_differ_in_xattr_order_only"] += 1
     elif sha(i2) != sha(i3):
         off = first_diff(i2, i3)
         P.append(("fix:image-differs:" + image_section(i2, off).replace(" ", "-"), "img2 != img3 (%s flavour, tar2sqfs %s): sizes %d/%d, first difference at offset %d in %s" % (
